@@ -390,8 +390,17 @@ def r3_deposits(ctx):
         term = q.sum_over(ctx.prog, b, tme)
         okd = term is not None and term == my.replace("$2", "@")
         why = "denominator = %s" % sig(q.novers(tme))[:160] if term is None else "denominator sums %s, the numerator is %s" % (term[:120], my[:120])
-        r.check(okd, "rewrite/denominator", "the pro-rata denominator is Σ over the batch of the numerator expression √(lᵢ)·√(rᵢ)",
-                "the pro-rata denominator is not the sum of the numerators over the batch (%s): the shares can add up to more than total_liqs, i.e. more liquidity tokens than the pool records" % why)
+        # a VIOLATION needs both sides to be read: the denominator as a sum whose term differs from the numerator's expression, or as something that is no sum at
+        # all (a product of roots of the side totals — D16).  Weights computed once, kept in a vector and zipped back to the requests (numerator = an element of
+        # that vector, denominator = its sum) are the same numbers by construction of the zip, which this rule does not follow: undecided.
+        wsig = sig(q.novers(W)) if W is not None else ""
+        w_readable = W is not None and "$2" in wsig and "elem(" not in wsig and "unknown" not in wsig
+        t_is_sum = tme[0] == "call" and tme[1].split("::")[-1] in ("fold", "sum", "try_fold", "reduce")
+        if okd or (term is not None and w_readable) or (term is None and not t_is_sum and tme[0] == "call"):
+            r.check(okd, "rewrite/denominator", "the pro-rata denominator is Σ over the batch of the numerator expression √(lᵢ)·√(rᵢ)",
+                    "the pro-rata denominator is not the sum of the numerators over the batch (%s): the shares can add up to more than total_liqs, i.e. more liquidity tokens than the pool records" % why)
+        else:
+            r.undecided("rewrite/denominator", "numerator weight %s / denominator %s: not both read as expressions over the request" % (wsig[:100], sig(q.novers(tme))[:100]))
     else:
         r.violation("rewrite/value", "%d value writes" % len(vals))
     # coins: insert output 0 (id before mutation), remove output 1; legacy rule confined
